@@ -22,13 +22,13 @@ OUTSIDE = ["NaN (excluded from every law incl. reflexivity: IEEE and CEL have Na
            "timestamp/duration comparison happens inside C datetime, which is replaced by the trusted term-level model vf/sym/times.py (cross-checked against the C type on every constructed value and by validation replays); timestamps built from RFC 3339 *text* are concrete representatives (pendulum parses the text in C/third-party code)",
            "cross-type comparisons (no such overload)"]
 ASSUMPTIONS = ["same-type operands only", "the order asserted for numbers is the numeric order, for strings/bytes the code point / octet lexicographic order"]
-TRUSTED = ["z3 5.1", "CPython 3.12 on concrete values", "vf.sym shadows", "vf.refsem / vf.props.values reference relations"]
+TRUSTED = ["z3 5.1", "CPython 3.12 on concrete values", "vf.sym shadows", "vf.refsem / vf.props.values reference relations", "vf/sym/times.py (model of C datetime, cross-checked on every constructed value)"]
 MANIFEST = {
     "text": "Symbolic execution of the real relation code (type_matched, celtypes comparisons, ListType/MapType __eq__/__ne__, boolean(), Evaluator.relation / transpiled relation) "
             "on symbolic operands; each path evaluates 13 relation programs and z3 proves the laws (reflexive, symmetric, != is negation, < vs >, <= decomposition, trichotomy, "
             "transitivity) and agreement with the reference relation for ALL operand values within the shape bounds.",
     "note": "Lengths of strings/lists/maps are enumerated (bounds in evidence); element data is fully symbolic. NaN excluded. Trusted: z3, shadows (fidelity + validation replays).",
-    "technique": "symbolic execution of the real Python byte-code with shadow builtins + z3; relational (multi-evaluation) obligations; counterexample replay",
+    "technique": "symbolic execution of the real Python byte-code with shadow builtins (and the term-level datetime model for timestamps / durations) + z3; relational (multi-evaluation) obligations; counterexample replay",
     "design_ref": "DESIGN.md §7 C08",
 }
 
